@@ -146,7 +146,11 @@ func EncoderOf(name string) encode.Encoder {
 
 // typedValues decodes the encoded bytes with the encoder and builds the typed
 // slice NewSlimTrie expects.
+// the buffer the current [][]byte values are sliced from, and its contents before the build
+var sharedValBuf, sharedValCopy []byte
+
 func typedValues(enc encode.Encoder, vals [][]byte) interface{} {
+	sharedValBuf, sharedValCopy = nil, nil
 	if enc == nil {
 		return nil
 	}
@@ -156,6 +160,29 @@ func typedValues(enc encode.Encoder, vals [][]byte) interface{} {
 		for _, b := range vals {
 			out = append(out, namedU32(binary.LittleEndian.Uint32(b)))
 		}
+		return out
+	}
+	switch enc.(type) {
+	case rawEnc, encode.Bytes:
+		// [][]byte values the way a caller has them: slices of ONE read buffer, each with spare capacity that
+		// runs over the values after it (and 16 spare bytes at the end).  An encoder or builder that appends to a
+		// value it was handed writes into its neighbours; sharedValBuf is compared after the build.
+		total := 16
+		for _, b := range vals {
+			total += len(b)
+		}
+		buf := make([]byte, 0, total)
+		out := make([][]byte, 0, len(vals))
+		for _, b := range vals {
+			st := len(buf)
+			buf = append(buf, b...)
+			out = append(out, buf[st:len(buf)]) // cap runs to the end of the shared buffer
+		}
+		sharedValBuf = buf[:cap(buf)]
+		for i := len(buf); i < cap(buf); i++ {
+			sharedValBuf[i] = 0xa5
+		}
+		sharedValCopy = append([]byte{}, sharedValBuf...)
 		return out
 	}
 	if len(vals) == 0 {
@@ -280,7 +307,7 @@ func interp(toks []string) string {
 		lastInputsCheck = "inputs-unchanged"
 		if !reflect.DeepEqual(keysCopy, keys) && len(keys) > 0 {
 			lastInputsCheck = "KEYS-MODIFIED"
-		} else if valsCopy != fmt.Sprintf("%#v", tv) {
+		} else if valsCopy != fmt.Sprintf("%#v", tv) || !bytes.Equal(sharedValBuf, sharedValCopy) {
 			lastInputsCheck = "VALUES-MODIFIED"
 		} else if optCopy != optString(opts) {
 			lastInputsCheck = "OPT-MODIFIED"
